@@ -58,6 +58,12 @@ impl<'a> TXT<'a> {
         self
     }
 
+    /// Verification hook: the character strings of this record, in order
+    #[cfg(simple_dns_verif)]
+    pub fn verif_strings(&self) -> &[CharacterString<'a>] {
+        &self.strings
+    }
+
     /// Returns parsed attributes from this TXT Record, valid formats are:
     /// - key=value
     /// - key=
